@@ -790,6 +790,47 @@ fn gen_same_extent_alt(rng: &mut Rng, g: &QGen, nodes: &[&Node]) -> Option<Strin
     }
 }
 
+/// Family 10: `(sup/kind)` for (supertype, kind) pairs OBSERVED in this tree: each must compile and match.
+/// 1-3 patterns, bare or inside the real parent, with or without a field.
+fn gen_supertype_pairs(rng: &mut Rng, g: &QGen, nodes: &[&Node]) -> Option<String> {
+    let with_sup: Vec<&&Node> = nodes.iter().filter(|n| !n.is_error() && !n.is_missing() && g.sup_of.get(&n.id()).map(|v| !v.is_empty()).unwrap_or(false)).collect();
+    if with_sup.is_empty() {
+        return None;
+    }
+    let mut q = String::new();
+    for _ in 0..(1 + rng.below(3)) {
+        let n = ***rng.pick(&with_sup);
+        let sup = rng.pick(&g.sup_of[&n.id()]).clone();
+        let sub = if n.is_named() { n.kind().to_string() } else { quote(n.kind()) };
+        let core = format!("({sup}/{sub})");
+        let pat = match n.parent() {
+            Some(p) if !p.is_error() && rng.chance(1, 3) => {
+                let mut c = p.walk();
+                let mut field = None;
+                if c.goto_first_child() {
+                    loop {
+                        if c.node().id() == n.id() {
+                            field = c.field_name().map(|s| s.to_string());
+                            break;
+                        }
+                        if !c.goto_next_sibling() {
+                            break;
+                        }
+                    }
+                }
+                match field {
+                    Some(f) if rng.chance(1, 2) => format!("({} {f}: {core}{})", p.kind(), g.capture(rng)),
+                    _ => format!("({} {core}{})", p.kind(), g.capture(rng)),
+                }
+            }
+            _ => format!("{core}{}", g.capture(rng)),
+        };
+        q.push_str(&pat);
+        q.push('\n');
+    }
+    Some(q)
+}
+
 fn gen_query(rng: &mut Rng, g: &mut QGen, tree: &Tree) -> Option<String> {
     let nodes = all_nodes(tree);
     let named: Vec<&Node> = nodes.iter().filter(|n| n.is_named() && !n.is_missing()).collect();
@@ -818,7 +859,7 @@ fn gen_query(rng: &mut Rng, g: &mut QGen, tree: &Tree) -> Option<String> {
             }
         }
     }
-    match rng.below(15) {
+    match rng.below(17) {
         0 => {
             if let Some(q) = gen_negated_family(rng, g, &named) {
                 return Some(q);
@@ -852,6 +893,12 @@ fn gen_query(rng: &mut Rng, g: &mut QGen, tree: &Tree) -> Option<String> {
         10 => {
             let all: Vec<&Node> = nodes.iter().collect();
             if let Some(q) = gen_root_alt(rng, g, &all) {
+                return Some(q);
+            }
+        }
+        13 | 14 => {
+            let all: Vec<&Node> = nodes.iter().collect();
+            if let Some(q) = gen_supertype_pairs(rng, g, &all) {
                 return Some(q);
             }
         }
@@ -1191,12 +1238,12 @@ fn main() {
     let only: Vec<String> = args[2..].to_vec();
     let mut rng = Rng::new(seed_from_env());
     let thorough = tier_is_thorough();
-    let default_langs = ["lst", "arith", "jsonish", "stmt", "fx_readme_grammar", "fx_aliased_rules", "fx_inline_rules", "fx_extra_non_terminals", "fx_immediate_tokens", "fx_aliased_inlined_rules", "pairs"];
+    let default_langs = ["lst", "arith", "jsonish", "stmt", "fx_readme_grammar", "fx_aliased_rules", "fx_inline_rules", "fx_extra_non_terminals", "fx_immediate_tokens", "fx_aliased_inlined_rules", "pairs", "zsup"];
     let langs: Vec<String> = if !only.is_empty() {
         only
     } else if thorough {
         // a fixed list (the zoo grows while other properties are built; a check must not change with it)
-        let allow: &[&str] = &["arith","fx_aliased_inlined_rules","fx_aliased_rules","fx_aliased_token_rules","fx_aliased_unit_reductions","fx_anonymous_error","fx_associativity_left","fx_associativity_right","fx_depends_on_column","fx_dynamic_precedence","fx_epsilon_external_tokens","fx_external_and_internal_tokens","fx_external_tokens","fx_external_unicode_column_alignment","fx_extra_non_terminals","fx_extra_non_terminals_with_shared_rules","fx_immediate_tokens","fx_inline_rules","fx_inlined_aliased_rules","fx_lexical_conflicts_due_to_state_merging","fx_named_rule_aliased_as_anonymous","fx_nested_inlined_rules","fx_next_sibling_from_zwt","fx_precedence_on_subsequence","fx_readme_grammar","fx_reserved_words","fx_unicode_classes","jsonish","lst","stmt","pairs"];
+        let allow: &[&str] = &["arith","fx_aliased_inlined_rules","fx_aliased_rules","fx_aliased_token_rules","fx_aliased_unit_reductions","fx_anonymous_error","fx_associativity_left","fx_associativity_right","fx_depends_on_column","fx_dynamic_precedence","fx_epsilon_external_tokens","fx_external_and_internal_tokens","fx_external_tokens","fx_external_unicode_column_alignment","fx_extra_non_terminals","fx_extra_non_terminals_with_shared_rules","fx_immediate_tokens","fx_inline_rules","fx_inlined_aliased_rules","fx_lexical_conflicts_due_to_state_merging","fx_named_rule_aliased_as_anonymous","fx_nested_inlined_rules","fx_next_sibling_from_zwt","fx_precedence_on_subsequence","fx_readme_grammar","fx_reserved_words","fx_unicode_classes","jsonish","lst","stmt","pairs","zsup"];
         zoo::list().into_iter().filter(|l| allow.contains(&l.as_str())).collect()
     } else {
         default_langs.iter().map(|s| s.to_string()).filter(|s| zoo::zoo_dir(s).join("grammar.json").exists()).collect()
